@@ -46,12 +46,33 @@ Proof. vm_compute. reflexivity. Qed.
 
 (** * C. histories outside [wf_pool1]: why each conjunct is there *)
 
-(** keep-alive > 0: the idle worker naps for ever in virtual time, the pass diverges *)
+(** keep-alive > 0 is inside [wf_pool1] now (the idle worker's 1 ms naps advance the virtual clock until the
+    keep-alive expires); this history used to diverge in the model *)
 Example cx_keep : verdict 0 (0, 1, 1000) [PSubmit 0 [IReturn 1] None; PPass 0 100]
-  = ((false, false, false), (false, true, false, true, true, true)).
+  = ((true, true, true), (true, true, true, true, true, true)).
 Proof. vm_compute. reflexivity. Qed.
 
-(** min > 0: the last worker never exits, same divergence *)
+(** two workers with a keep-alive of 3 ms alternate idle yields and naps, then retire; the stop finds nobody *)
+Example ex_keepalive : verdict 0 (0, 2, 3000000)
+  [PSubmit 0 [ISuspend 0; IReturn 1] None; PSubmit 0 [IReturn 2] None; PPass 0 10000000; PGetRunning 0; PStop 0 1000000]
+  = ((true, true, true), (true, true, true, true, true, true)).
+Proof. vm_compute. reflexivity. Qed.
+
+(** a nap at the end of time: the keep-alive (5 ms) is pending when the saturating clock reaches u64::MAX, the
+    idle worker naps for ever, in the code as in the model; excluded by [naps_low] in [wf_pool1t] *)
+Definition cx_nap : list pop := [PSubmit 0 [IReturn 1] None; PClock (U64MAX - 2000000); PPass 0 U64MAX].
+Example cx_nap_saturates : verdict 0 (0, 1, 5000000) cx_nap = ((true, false, false), (false, true, false, true, true, true)).
+Proof. vm_compute. reflexivity. Qed.
+Example cx_nap_obs : nth 2 (prun (pw0 0 [(0, 1, 5000000)]) cx_nap) OUnitP =
+  OPass PDiverged [EL 0 0 (CbChanged Running) Ready; EB 0 (BStart 0); EB 0 (BRet 1)].
+Proof. vm_compute. reflexivity. Qed.
+
+(** a negative initial clock is outside [cfg_ok] (an idle yield, [Suspend 0 0], must be due at once) *)
+Example cx_negclock : verdict (-5) (0, 1, 0) [PSubmit 0 [IReturn 1] None; PPass 0 100]
+  = ((false, false, false), (true, true, true, true, true, true)).
+Proof. vm_compute. reflexivity. Qed.
+
+(** min > 0: the last worker never exits: it naps until the model's fuel runs out, the code for ever *)
 Example cx_min : verdict 0 (1, 1, 0) [PSubmit 0 [IReturn 1] None; PPass 0 100]
   = ((false, false, false), (false, true, false, true, true, true)).
 Proof. vm_compute. reflexivity. Qed.
